@@ -409,3 +409,26 @@ Proof.
   pose proof (Z.div_mod (t + d + 500) 1000 ltac:(lia)).
   pose proof (Z.mod_pos_bound (t + d + 500) 1000 ltac:(lia)). lia.
 Qed.
+
+(* the oracle hypothesis and the quantifier's side condition, as named predicates *)
+Definition sql_end_ok (f : Z -> Z -> Z) : Prop :=
+  forall t d, 0 <= t -> 0 <= d <= DAY_US -> t + d < 2 ^ 52 -> Z.abs (f t d - (t + d)) <= 1000.
+Definition ordered (ws we : option Z) : Prop := forall a z, ws = Some a -> we = Some z -> a <= z.
+
+Lemma sql_end_ok_nearest : sql_end_ok sql_end_nearest.
+Proof. intros t d _ _ _. apply sql_end_nearest_err. Qed.
+
+(* pw_stored reads through the bucket_keys cache; when the cache agrees with the table
+   (the store invariant of Model/PeeweeStore.v) it is pw_view's event list *)
+Definition cache_ok (c : pwstate) (b : Z) : Prop :=
+  match find (fun r => pb_id r =? b) (pw_buckets c) with
+  | Some r => pw_key c b = Some (pb_key r)
+  | None => pw_key c b = None
+  end.
+
+Lemma pw_view_stored : forall c b m es, cache_ok c b -> pw_view c b = Some (m, es) -> pw_stored c b = Some es.
+Proof.
+  intros c b m es K V. unfold cache_ok in K. unfold pw_view in V. unfold pw_stored.
+  destruct (find (fun r => pb_id r =? b) (pw_buckets c)) as [r|]; [|discriminate].
+  rewrite K. injection V as _ <-. reflexivity.
+Qed.
